@@ -5,7 +5,7 @@
 (* abstract bounded sequence), the Graph API, the topology functions, the  *)
 (* Item functions and the random generators' contracts.                    *)
 (***************************************************************************)
-EXTENDS PushContainers, Json, IOUtils
+EXTENDS PushISet, Json, IOUtils
 
 Rec == ndJsonDeserialize(IOEnv.TRACE)
 VARIABLES l, cur
@@ -207,8 +207,18 @@ JudgeCli(e) ==
                              "the command-line front end and the library disagree on the stacks of some step (diverging program)")
   ELSE Expect(e.cli = e.lib /\ e.done, "cli", "C14", "the command-line front end and the library disagree on the stacks of some step")
 
+\* the instruction-set object: `pre` is the MODEL state carried from event to event (the tags are not observable),
+\* the recorded post-state contributes the observable part (the names)
+ISModel(pre) == IF HasF(pre, "tag") THEN pre ELSE [names |-> Range(pre.names), tag |-> <<>>]
+JudgeISet(e, pre) ==
+  IF Crashed(e) THEN V("crash", "iset." \o e.act.m, "EXT", e.post.msg)
+  ELSE LET r == ISOp(e.act.m, e.act.args, ISModel(pre)) IN
+       Expect(RetEq(e.ret, r.ret) /\ Range(e.post.names) = r.post.names /\ Len(e.post.names) = Cardinality(r.post.names),
+              "iset." \o e.act.m, "EXT", "instruction set: names or answer differ from the model")
+
 Judge(e, pre) ==
   CASE e.act.a = "stack"  -> JudgeStack(e, pre)
+    [] e.act.a = "iset"   -> JudgeISet(e, pre)
     [] e.act.a = "det"    -> JudgeDet(e)
     [] e.act.a = "ids"    -> JudgeIds(e, pre)
     [] e.act.a = "cli"    -> JudgeCli(e)
@@ -228,6 +238,7 @@ Consume ==
      IN /\ (j.v # "ok" => PrintT("EV " \o ToJson([l |-> l, id |-> e.id, i |-> e.i, j |-> j])))
         /\ cur' = IF Crashed(e) THEN <<>>
                   ELSE IF e.act.a = "ids" THEN [maxid |-> IF NonEmptyLists(e) = <<>> THEN 0 ELSE IdsMax(e)]
+                  ELSE IF e.act.a = "iset" THEN ISOp(e.act.m, e.act.args, ISModel(pre)).post
                   ELSE e.post
   /\ l' = l + 1
 Finish == l = Len(Rec) + 1 /\ PrintT("DONE " \o ToString(Len(Rec))) /\ l' = l + 1 /\ UNCHANGED cur
